@@ -15,6 +15,8 @@ import Mathlib.Tactic.FieldSimp
 import Mathlib.Tactic.Ring
 import Rsa.Lemmas.C16FS
 import Rsa.Lemmas.C16Hist
+import Rsa.Lemmas.C16Coded
+import Rsa.Lemmas.C16LinkRdm
 
 set_option linter.unusedSectionVars false
 set_option linter.unusedVariables false
@@ -234,6 +236,50 @@ theorem roundtrip_after_history (ops : List RdmOp) (o : Val) (hops : ∀ op ∈ 
     rw [e]; exact rdmsToDict_mkRdms _ _ _ _ _
   exact roundtrip .rdms _ ⟨dis, desc, rd, pd, meas, e, hwf⟩ fs t ft ov _ hd (fun _ => s) hfresh
 
+/-! ### objects produced by arbitrary structural operations: the operation alphabets of C10 / C11 -/
+
+/-- **RDMs after any C10 history.**  Take any store of well-formed RDMs objects (as the
+    constructor builds them, `index` descriptors included), apply *any* finite sequence of C10
+    operations (`Rsa.Rdm.Op`: getitem, subset / subsample of RDMs or patterns, reorder, sort_by,
+    append, concat with or without its in-place re-alignment, copy, from_partials, permute /
+    inverse permute — failing operations leave the store as it is), pick *any* object of the
+    resulting store, with any storable measure: saved to either file type (path or handle,
+    fresh or overwrite) and loaded again it is an equal object.  Columns that `concat` filled
+    with `None`, or that mix numbers and strings, travel as lists that are no arrays. -/
+theorem roundtrip_after_c10_history (s0 : Rsa.Rdm.Store Rat) (hwf : ∀ o ∈ s0, o.WF)
+    (hidx : ∀ o ∈ s0, o.rdesc.has "index" = true ∧ o.pdesc.has "index" = true)
+    (cm : Bool) (ops : List Rsa.Rdm.Op) (k : Nat) (o : Rsa.Rdm.Obj Rat)
+    (hk : (Rsa.Rdm.run cm s0 ops)[k]? = some o) (meas : Val) (hm : fieldOk .utf8 meas = true)
+    (fs : FS) (t : Target) (ft : FType) (ov : Bool)
+    (hfresh : ov = true ∨ FS.lookup fs t = none ∨ (ft = .pkl ∧ t.isPath = true)) :
+    ∃ o', (save .utf8 .rdms fs t ft ov (ofObj meas o)).2.1 = none ∧
+      load .rdms (save .utf8 .rdms fs t ft ov (ofObj meas o)).1 t (some ft) = .ok o' ∧
+      canon o' = canon (ofObj meas o) := by
+  have hg := reachable_good s0 hwf hidx cm ops k o hk meas
+  obtain ⟨hd, hst⟩ := storable_ofObj meas hm o
+  exact roundtrip .rdms _ hg fs t ft ov _ hd (fun _ => hst) hfresh
+
+/-- **Datasets after any C11 history.**  From one aligned dataset, after *any* finite sequence
+    of the C11 operations that keep measurement values (`Rsa.Dataset.Op`: split / subset by
+    observation, channel or time, sort_by, merge, odd-even splits, time-as-observations /
+    -channels, DataFrame round trip, copy, pick), every dataset of the reached workspace that has
+    an observation and a channel (and, if temporal, its `time` descriptor) round-trips through
+    either file type. -/
+theorem roundtrip_after_c11_history (init : Rsa.Dataset.DS Rat) (hw : Rsa.Dataset.WFex init)
+    (ops : List Rsa.Dataset.Op) (hops : ∀ o ∈ ops, Rsa.Lemmas.C11.keepsValues o)
+    (d : Rsa.Dataset.DS Rat) (hd : d ∈ Rsa.Dataset.run [init] ops)
+    (hno : 0 < d.nObs) (hnc : 0 < d.nChan)
+    (ht : d.temporal = true → (d.time.map (·.1)).contains "time" = true)
+    (fs : FS) (t : Target) (ft : FType) (ov : Bool)
+    (hfresh : ov = true ∨ FS.lookup fs t = none ∨ (ft = .pkl ∧ t.isPath = true)) :
+    ∃ o', (save .utf8 .dataset fs t ft ov (ofDS d)).2.1 = none ∧
+      load .dataset (save .utf8 .dataset fs t ft ov (ofDS d)).1 t (some ft) = .ok o' ∧
+      canon o' = canon (ofDS d) := by
+  obtain ⟨no, nc, nt, hwfd⟩ := run_wfex init hw ops hops d hd
+  have hg := good_ofDS d no nc nt hwfd hno hnc ht
+  obtain ⟨dd, hdd, hst⟩ := storable_ofDS d
+  exact roundtrip .dataset _ hg fs t ft ov dd hdd (fun _ => hst) hfresh
+
 /-! ### saving is pure; the existence guard; overwrite -/
 
 /-- saving never changes the in-memory object, whatever the target, file type, flag and
@@ -263,7 +309,7 @@ theorem no_overwrite_guard (c : Codec) (k : Kind) (fs : FS) (t : Target) (o : Va
   unfold save
   cases hd : toDict k o with
   | error e => simp
-  | ok d => simp [writeDict, hex, hp]
+  | ok d => simp [writeDict, writeDictWith, hex, hp]
 
 /-- with `overwrite=True` the file afterwards holds exactly the new object — its content does
     not depend on what was there — and no other file is touched -/
@@ -301,6 +347,129 @@ theorem fresh_save_exact (k : Kind) (fs : FS) (t : Target) (o d : Val) (tree : H
   · simp [save, hd, hw, lookup_put_self]
   · intro t' ht
     simp [save, hd, hw, cleared, lookup_put_other _ _ _ _ ht]
+
+/-! ### the code as written is the specification (decision structures regenerated from the
+    source: harness/leaves/C16.py → Rsa.Gen.C16) -/
+
+/-- `_write_to_group`: with the isinstance chain in its current order, every Python type takes
+    the branch that stores it (a `str` is *not* treated as a generic iterable, a tuple is not
+    dropped, …) -/
+theorem write_dispatch_table :
+    writeBranch .str = 1 ∧ writeBranch .ndarray = 2 ∧ writeBranch .list = 3 ∧
+    writeBranch .dict = 4 ∧ writeBranch .none = 5 ∧ writeBranch .tuple = 6 ∧
+    writeBranch .scalar = 7 := writeBranch_table
+
+/-- `_write_list`: both errors numpy / h5py raise for a list that is no array (TypeError for an
+    object array, ValueError for a ragged list) reach the per-element fall-back; a string array
+    is encoded, any other array stored raw -/
+theorem list_fallback_table (u : Nat) :
+    Rsa.Gen.C16.listDispatch 1 0 u = 3 ∧ Rsa.Gen.C16.listDispatch 0 1 u = 3 ∧
+    Rsa.Gen.C16.listDispatch 0 0 1 = 1 ∧ Rsa.Gen.C16.listDispatch 0 0 0 = 2 := listDispatch_table u
+
+/-- the writer as coded (generated dispatch) is the `encode` all theorems above speak about -/
+theorem encodeC_eq_encode (c : Codec) (d : Val) : encodeC c d = encode c d := encodeC_eq c d
+
+/-- `save` of every kind as coded (generated: which writer runs, whether `remove_file` ran before
+    it, the existence guard of `write_dict_hdf5`) is the `save` all theorems speak about -/
+theorem saveC_eq_save (c : Codec) (k : Kind) (fs : FS) (t : Target) (ft : FType) (ov : Bool)
+    (o : Val) : saveC c k fs t ft ov o = save c k fs t ft ov o := saveC_eq c k fs t ft ov o
+
+/-- `save()` without arguments writes HDF5 and does not overwrite -/
+theorem save_defaults (k : Kind) : saveDefault k = (.hdf5, false) := saveDefault_table k
+
+/-- `load_*` without `file_type`, for the three loaders: a name ending in `.pkl` is a pickle,
+    one ending in `.h5` or `hdf5` is HDF5, anything else (`.H5`, `.hdf`, `.pickle`, …) is refused;
+    and when the type is recognised the load is the load with that type -/
+theorem autodetect_table :
+    (∀ b c, Rsa.Gen.C16.detectRdm 1 b c = 1 ∧ Rsa.Gen.C16.detectDataset 1 b c = 1 ∧
+      Rsa.Gen.C16.detectResults 1 b c = 1) ∧
+    (∀ c, Rsa.Gen.C16.detectRdm 0 1 c = 2 ∧ Rsa.Gen.C16.detectDataset 0 1 c = 2 ∧
+      Rsa.Gen.C16.detectResults 0 1 c = 2) ∧
+    (Rsa.Gen.C16.detectRdm 0 0 1 = 2 ∧ Rsa.Gen.C16.detectDataset 0 0 1 = 2 ∧
+      Rsa.Gen.C16.detectResults 0 0 1 = 2) ∧
+    (Rsa.Gen.C16.detectRdm 0 0 0 = 0 ∧ Rsa.Gen.C16.detectDataset 0 0 0 = 0 ∧
+      Rsa.Gen.C16.detectResults 0 0 0 = 0) := detect_table
+
+theorem autodetect_agrees (k : Kind) (fs : FS) (t : Target) (ft : FType)
+    (h : detectType k t none = .ok ft) : load k fs t none = load k fs t (some ft) := by
+  have h2 : detectType k t (some ft) = .ok ft := rfl
+  simp only [load, readDict, h, h2]
+
+/-! ### lists that are no arrays (ragged, or holding `None`) -/
+
+/-- through HDF5 a list stays a list and a dictionary stays a dictionary, under every key of
+    every storable dictionary, with the same entries -/
+theorem list_stays_list (d : Val) (hs : storable .utf8 d = true) :
+    ∃ t d', encode .utf8 d = .ok t ∧ decode t = .ok d' ∧
+      ∀ key v, d.get? key = some v →
+        ∃ v', d'.get? key = some v' ∧ v'.isList = v.isList ∧ norm v' = norm v := by
+  obtain ⟨t, d', h1, h2, h3⟩ := dict_roundtrip .utf8 d hs
+  refine ⟨t, d', h1, h2, fun key v hv => ?_⟩
+  obtain ⟨v', g1, g2⟩ := sim_of_norm_eq h3 key v hv
+  exact ⟨v', g1, isList_of_norm_eq g2, g2⟩
+
+/-- `dict_to_list`: a list is left alone; an index-keyed group without the list marker (a file
+    written before the marker existed) becomes the list of its entries in numeric order -/
+theorem dict_to_list_spec :
+    (∀ v, v.isList = true → toListVal v = .ok v) ∧
+    (∀ v r, keysFrom indexKey 0 (.dcons (indexKey 0) v r) →
+      toListVal (.dcons (indexKey 0) v r) = .ok (mkList (.dcons (indexKey 0) v r))) := by
+  refine ⟨toListVal_of_isList, fun v r hk => ?_⟩
+  have hne : indexKey 0 ≠ listKey := by decide
+  simp [toListVal, hne, byIndex_keysFrom indexKey indexKey_inj _ hk, Except.map]
+
+/-! ### a second save into an open handle that already holds something, without `overwrite` -/
+
+/-- HDF5: `File(handle, 'a')` re-opens the file and `_write_to_group` meets a member of the same
+    name (always the case when the file holds an object of the same kind: the first key of
+    every kind's dictionary is a dataset / group): h5py refuses, the file is exactly what it
+    was, every load returns what it returned before -/
+theorem second_save_refused (k : Kind) (fs : FS) (t : Target) (ht : t.isPath = false) (g : H5)
+    (hg : FS.lookup fs t = some (.h5 g)) (o : Val) (k0 : String) (v0 r : Val)
+    (hd : toDict k o = .ok (.dcons k0 v0 r)) (it : H5) (hi : encodeItem .utf8 v0 = .ok it)
+    (hna : it.isAttr = false) (hl : g.hasLink k0 = true) :
+    (save .utf8 k fs t .hdf5 false o).2.1 = some .nameExists ∧
+    FS.lookup (save .utf8 k fs t .hdf5 false o).1 t = some (.h5 g) ∧
+    ∀ k' ft, load k' (save .utf8 k fs t .hdf5 false o).1 t ft = load k' fs t ft := by
+  have hw : writeDict .utf8 fs t .hdf5 false (.dcons k0 v0 r) =
+      (FS.put fs t (.h5 g), some .nameExists) := by
+    simp [writeDict, writeDictWith, hg, ht, writeInto_collision (encodeItem .utf8) g k0 v0 r it hi hna hl]
+  refine ⟨by simp [save, hd, hw], by simp [save, hd, hw, lookup_put_self], fun k' ft => ?_⟩
+  simp [save, hd, hw, load, readDict, lookup_put_self, hg]
+
+/-- … in particular two saves of objects of the same kind into a fresh handle: the second is
+    refused and the handle still holds the first -/
+theorem save_twice_keeps_first (k : Kind) (fs : FS) (t : Target) (ht : t.isPath = false)
+    (hf : FS.lookup fs t = none) (o1 o2 : Val) (k0 : String) (v1 r1 v2 r2 : Val)
+    (hd1 : toDict k o1 = .ok (.dcons k0 v1 r1)) (hd2 : toDict k o2 = .ok (.dcons k0 v2 r2))
+    (hst : storable .utf8 (.dcons k0 v1 r1) = true) (it1 it2 : H5)
+    (hi1 : encodeItem .utf8 v1 = .ok it1) (hna1 : it1.isAttr = false)
+    (hi2 : encodeItem .utf8 v2 = .ok it2) (hna2 : it2.isAttr = false) :
+    (save .utf8 k (save .utf8 k fs t .hdf5 false o1).1 t .hdf5 false o2).2.1 = some .nameExists ∧
+    ∀ k' ft, load k' (save .utf8 k (save .utf8 k fs t .hdf5 false o1).1 t .hdf5 false o2).1 t ft =
+      load k' (save .utf8 k fs t .hdf5 false o1).1 t ft := by
+  obtain ⟨tree, _, e1, _, _⟩ := dict_roundtrip .utf8 _ hst
+  have hw := writeDict_hdf5_fresh .utf8 fs t false _ tree (Or.inr hf) e1
+  have hfs : (save .utf8 k fs t .hdf5 false o1).1 = FS.put (cleared fs t false) t (.h5 tree) := by
+    simp [save, hd1, hw]
+  have hl := hasLink_encode_head .utf8 k0 v1 r1 tree it1 hi1 hna1 e1
+  rw [hfs]
+  obtain ⟨a, _, c⟩ := second_save_refused k (FS.put (cleared fs t false) t (.h5 tree)) t ht tree
+    (lookup_put_self _ t _) o2 k0 v2 r2 hd2 it2 hi2 hna2 hl
+  exact ⟨a, c⟩
+
+/-- pickle: `pickle.dump` into a handle that already holds pickles writes behind the first one;
+    the save succeeds and every load (which reads the first pickle) returns what it returned before -/
+theorem pkl_append_keeps_first (k : Kind) (fs : FS) (t : Target) (ht : t.isPath = false)
+    (d0 : Val) (rest : List Val) (hg : FS.lookup fs t = some (.pkl (d0 :: rest))) (o d : Val)
+    (hd : toDict k o = .ok d) :
+    (save .utf8 k fs t .pkl false o).2.1 = none ∧
+    ∀ k' ft, load k' (save .utf8 k fs t .pkl false o).1 t ft = load k' fs t ft := by
+  have hw : writeDict .utf8 fs t .pkl false d =
+      (FS.put fs t (.pkl (d0 :: (rest ++ [dictAfter .pkl d]))), none) := by
+    simp [writeDict, writeDictWith, hg, ht]
+  refine ⟨by simp [save, hd, hw], fun k' ft => ?_⟩
+  simp [save, hd, hw, load, readDict, lookup_put_self, hg]
 
 /-! ### why the pinned tree changes a reloaded Result (defect C16-result-variances) -/
 
@@ -368,5 +537,37 @@ example :
 example : opOk (.takeRdms [1, 1, 0]) = true ∧ opOk (.setDesc "k" (.str "ü")) = true ∧
     opOk (.setMeasure .none) = true := by decide
 example : (1 : ℚ) < 4 ∧ (4 : ℚ) < 6 ∧ (1 : ℚ) ≠ 0 := by norm_num
+/-- a list with a missing entry `[1, None]` inside a descriptor dictionary: storable, a list -/
+def exList : Val := mkList (mkDict [("0", natVal 1), ("1", .none)])
+example : storable .utf8 (mkDict [("sess", exList), ("d", mkDict [("0", natVal 1)])]) = true ∧
+    exList.isList = true ∧ (mkDict [("0", natVal 1)]).isList = false := by decide +kernel
+example : keysFrom indexKey 0 (.dcons (indexKey 0) (natVal 1) (.dcons (indexKey 1) .none .dnil)) :=
+  ⟨rfl, rfl, trivial⟩
+-- the hypotheses of `save_twice_keeps_first` hold for two RDMs objects and a fresh memory handle
+example : ∃ k0 v1 r1 it1, toDict .rdms exRdms = .ok (.dcons k0 v1 r1) ∧
+    storable .utf8 (.dcons k0 v1 r1) = true ∧ encodeItem .utf8 v1 = .ok it1 ∧ it1.isAttr = false :=
+  ⟨"dissimilarities", _, _, _, rfl, by decide +kernel, rfl, rfl⟩
+example : detectType .rdms { isPath := true, id := 0, name := "a.tar.hdf5" } none = .ok .hdf5 ∧
+    detectType .dataset { isPath := true, id := 0, name := "x.h5.pkl" } none = .ok .pkl ∧
+    detectType .result { isPath := true, id := 0, name := "x.H5" } none = .error .valueError := by
+  decide +kernel
+
+/-- a C10 object as the constructor builds it: 1 RDM of 3 conditions with a NaN entry, an rdm
+    descriptor without a value (`None`), a pattern descriptor mixing strings and a number -/
+def exObj : Option (Rsa.Rdm.Obj Rat) :=
+  Rsa.Rdm.mk2d [[some 1, none, some 2]] [("sub", .int 1)] [("sess", [.none])]
+    [("cond", [.str "a", .str "b", .int 3])]
+example (o : Rsa.Rdm.Obj Rat) (h : exObj = some o) :
+    o.WF ∧ o.rdesc.has "index" = true ∧ o.pdesc.has "index" = true :=
+  ⟨Rsa.Rdm.mk2d_wf h ⟨3, by decide, by decide⟩, (Rsa.Rdm.extra_mk2d h).rindex,
+    (Rsa.Rdm.extra_mk2d h).pindex⟩
+example : exObj.isSome = true := by decide +kernel
+/-- an aligned C11 dataset: 2 observations × 2 channels, a descriptor column mixing kinds -/
+def exDS : Rsa.Dataset.DS Rat :=
+  { temporal := false, meas := [[[1], [2]], [[3], [4]]], desc := [("sub", .num 1)]
+    obs := [("c", [.str "a", .num 1])], chan := [("n", [.str "x", .str "y"])], time := [] }
+example : Rsa.Dataset.WFex exDS ∧ 0 < exDS.nObs ∧ 0 < exDS.nChan := by
+  refine ⟨⟨2, 2, 1, ⟨rfl, ?_, ?_, ?_, ?_, ?_⟩⟩, by decide, by decide⟩ <;>
+    simp [exDS, Rsa.Dataset.Tbl.wf]
 
 end Rsa.Props.C16
